@@ -82,8 +82,10 @@ func (c *candidateBase) Done() <-chan struct{} {
 
 // Err implements context.Context.
 func (c *candidateBase) Err() error {
+	// Done is closed when the candidate starts closing: from then on the context
+	// must report an error, or a submission it canceled would look like a success.
 	select {
-	case <-c.closedCh:
+	case <-c.closeCh:
 		return ErrRunCanceled
 	default:
 		return nil
